@@ -1466,6 +1466,17 @@ class _DNF:
     def __bool__(self) -> bool:
         return bool(self._filters)
 
+    @staticmethod
+    def _hashable(predicate):
+        # ("col", "in", [1, 2]): the value of a user filter may be a list or set
+        if (
+            isinstance(predicate, (tuple, list))
+            and len(predicate) == 3
+            and isinstance(predicate[2], (list, set))
+        ):
+            return (predicate[0], predicate[1], tuple(predicate[2]))
+        return tuple(predicate) if isinstance(predicate, list) else predicate
+
     @classmethod
     def normalize(cls, filters: _And | _Or | list | tuple | None):
         """Convert raw filters to the `_Or(_And)` DNF representation"""
@@ -1473,11 +1484,16 @@ class _DNF:
             result = None
         elif isinstance(filters, list):
             conjunctions = filters if isinstance(filters[0], list) else [filters]
-            result = cls._Or([cls._And(conjunction) for conjunction in conjunctions])
+            result = cls._Or(
+                [
+                    cls._And(cls._hashable(f) for f in conjunction)
+                    for conjunction in conjunctions
+                ]
+            )
         elif isinstance(filters, tuple):
             if isinstance(filters[0], tuple):
                 raise TypeError("filters must be List[Tuple] or List[List[Tuple]]")
-            result = cls._Or((cls._And((filters,)),))
+            result = cls._Or((cls._And((cls._hashable(filters),)),))
         elif isinstance(filters, cls._Or):
             result = cls._Or(se for e in filters for se in cls.normalize(e))
         elif isinstance(filters, cls._And):
